@@ -50,11 +50,14 @@ var shapes = map[string][]cmd{
 	"quad":    {{op: 'M', x: 0, y: 0}, {op: 'Q', x1: 4, y1: 6, x: 8, y: 0}},
 	"cubic":   {{op: 'M', x: 0, y: 0}, {op: 'C', x1: 2, y1: 6, x2: 6, y2: 6, x: 8, y: 0}},
 	"cubic-s": {{op: 'M', x: 0, y: 0}, {op: 'C', x1: 8, y1: 0, x2: 0, y2: 6, x: 8, y: 6}},
+	// collinear quadratics whose control point lies beyond an end point (the curve runs out and comes back), then a line
+	"quad-over":  {{op: 'M', x: 0, y: 0}, {op: 'Q', x1: 3, y1: 0, x: 1, y: 0}, {op: 'L', x: 1, y: 4}},
+	"quad-under": {{op: 'M', x: 0, y: 0}, {op: 'Q', x1: -2, y1: 0, x: 3, y: 0}, {op: 'L', x: 3, y: 4}},
 	// cubics with two inflection points strictly inside (0,1) (Path.Length splits them in three pieces)
 	"cubic-2i-a": {{op: 'M', x: 0, y: 0}, {op: 'C', x1: 9, y1: 6, x2: 1, y2: 6, x: 10, y: 0}},
 	"cubic-2i-b": {{op: 'M', x: 0, y: 0}, {op: 'C', x1: 4.5, y1: 3, x2: 1.5, y2: 6, x: 6, y: 0}},
 	"cubic-2i-c": {{op: 'M', x: 0, y: 0}, {op: 'C', x1: 6, y1: 2, x2: 1, y2: 6, x: 6, y: 1}},
-	"ellipse": {{op: 'M', x: 6, y: 0}, {op: 'A', rx: 6, ry: 3, sweep: true, x: -6, y: 0}, {op: 'A', rx: 6, ry: 3, sweep: true, x: 6, y: 0}, {op: 'z'}},
+	"ellipse":    {{op: 'M', x: 6, y: 0}, {op: 'A', rx: 6, ry: 3, sweep: true, x: -6, y: 0}, {op: 'A', rx: 6, ry: 3, sweep: true, x: 6, y: 0}, {op: 'z'}},
 	"mixed": {{op: 'M', x: 0, y: 0}, {op: 'L', x: 6, y: 0}, {op: 'Q', x1: 9, y1: 0, x: 9, y: 3}, {op: 'A', rx: 3, ry: 3, sweep: true, x: 6, y: 6},
 		{op: 'L', x: 0, y: 6}, {op: 'z'}},
 	"mixed-open": {{op: 'M', x: 0, y: 0}, {op: 'C', x1: 0, y1: 4, x2: 4, y2: 4, x: 4, y: 0}, {op: 'L', x: 8, y: 0}, {op: 'A', rx: 4, ry: 4, sweep: true, x: 12, y: 4}},
